@@ -171,7 +171,11 @@ Fixpoint parse_alt (fuel : nat) (s : bytes) {struct fuel} : option (re * bytes) 
       end
   end.
 
+(** The regex crate refuses patterns nested deeper than its parser's limit (250 by default, counted on
+    its own syntax tree, and the program compiles variants of the pattern that nest one level deeper);
+    patterns with a hundred or more opening parentheses are left outside the modelled family. *)
 Definition parse_re (s : bytes) : option re :=
+  if (100 <=? length (filter (N.eqb 40) s))%nat then None else
   match parse_alt (S (length s)) s with
   | Some (r, []) => Some r
   | _ => None
